@@ -6,6 +6,7 @@ Oracle: (a) the read ends with severity <= INCOMPLETE ("worse than a user messag
 import copy
 import json
 import os
+import re
 import shutil
 
 from hypothesis import strategies as st
@@ -97,6 +98,17 @@ def gen_faults(sch, pop):
             yield dict(base, cls="ref-absent", token="#%d" % absent)
             ent = sch.resolve(sl["type"])[1]
             wrong = [o for o in pop["instances"] if ent not in sch.closure([p["ent"] for p in o["parts"]]) and o["id"] != inst["id"]]
+            if cx:
+                # in an externally mapped instance the slot may be narrowed by a re-declaration that another part brings along
+                # (r_3 re-declares beta.edgex : r_3): an instance that still fits the type written in the declaring entity is a
+                # violation only through that re-declaration - its own class, see finding F83
+                decl = [a for a in sch.ent(inst["parts"][pi]["ent"])["attrs"] if a["name"].lower() == sl["name"].lower() and not a.get("redecl")]
+                if decl and decl[0]["type"].get("k") == "named" and sch.is_entity(decl[0]["type"]["name"]):
+                    orig = decl[0]["type"]["name"].lower()
+                    narrowed_only = [o for o in wrong if orig in sch.closure([p["ent"] for p in o["parts"]])]
+                    wrong = [o for o in wrong if o not in narrowed_only]
+                    if narrowed_only:
+                        yield dict(base, cls="ref-wrong-type-by-redeclaration-in-complex", token="#%d" % narrowed_only[0]["id"])
             if wrong:
                 yield dict(base, cls="ref-wrong-type", token="#%d" % wrong[0]["id"])
         if kind == "AGGREGATE" and cur[0] == "agg":
@@ -111,6 +123,37 @@ def gen_faults(sch, pop):
                 bad = {"INTEGER": "'str'", "STRING": "5", "BOOLEAN": "5"}[ek[1]]
                 n = r["hi"] - r["lo"] + 1 if r["agg"] == "ARRAY" else max(1, r["lo"])
                 yield dict(base, cls="wrong-kind-in-aggregate:%s" % ek[1], token="(" + ",".join([bad] * n) + ")")
+        if kind == "SELECT" and cur[0] == "typed":
+            # violations INSIDE a typed select value: a literal of the wrong kind for the named member (reached directly or through
+            # nested selects), and the keyword of a defined type that is not in the select list
+            mk = sch.resolve({"k": "named", "name": cur[1].lower()})
+            base_kind = mk[1] if mk[0] == "simple" else {"enum": "ENUMERATION", "agg": "AGGREGATE"}.get(mk[0])
+            nested = cur[1].lower() not in sch.select_direct_members(sch.resolve(sl["type"])[1])
+            for tok in WRONG.get(base_kind, [])[:3]:
+                if base_kind == "NUMBER" or (base_kind == "REAL" and tok_kind(tok) == "INTEGER"):
+                    continue        # (integer form where a real is expected: finding F24's territory, not a clear violation here)
+                yield dict(base, cls="typed-select-value-wrong-kind:%s<-%s%s" % (base_kind, tok_kind(tok), ":nested-select" if nested else ""),
+                           token="%s(%s)" % (cur[1], tok))
+            sel_leaves = sch.select_leaves(sch.resolve(sl["type"])[1])
+            def chain(n):
+                out = set()
+                while n in sch.types and n not in out:
+                    out.add(n)
+                    t_ = sch.types[n]
+                    if t_["kind"] != "defined" or t_["of"]["k"] != "named":
+                        break
+                    n = t_["of"]["name"].lower()
+                return out
+            leaf_chains = set()
+            for lf in sel_leaves:
+                leaf_chains |= chain(lf)
+            # (a type on the rename chain of a member is left alone: whether a specialisation may stand for the member is arguable)
+            others = [t["name"] for t in sch.d["types"] if t["kind"] == "defined" and not (chain(t["name"].lower()) & leaf_chains)
+                      and sch.resolve({"k": "named", "name": t["name"].lower()})[0] == "simple"]
+            if others:
+                ok = sch.resolve({"k": "named", "name": others[0].lower()})[1]
+                lit = {"INTEGER": "1", "REAL": "1.5", "NUMBER": "1.5", "STRING": "'v'", "BOOLEAN": ".T.", "LOGICAL": ".T.", "BINARY": '"0A"'}[ok]
+                yield dict(base, cls="typed-select-value-type-outside-list", token="%s(%s)" % (others[0].upper(), lit))
         if kind == "SELECT":
             leaves = sch.select_leaves(sch.resolve(sl["type"])[1])
             wrong = [o for o in pop["instances"] if not any(l in sch.closure([p["ent"] for p in o["parts"]]) for l in leaves if sch.is_entity(l)) and o["id"] != inst["id"]]
@@ -200,15 +243,10 @@ def apply_fault(pop, fault, layout, feats):
     elif cls == "missing-close-paren":
         line = line[:-2] + ";"
     elif cls == "unterminated-string":
-        # drop the closing quote of the first string literal of the record
+        # drop the closing quote of the first string literal of the record (found with the reference parser's scanner: an
+        # apostrophe may also be the argument of a \S\ directive)
         a = line.index("'")
-        j = a + 1
-        while True:
-            j = line.index("'", j)
-            if line[j:j + 2] == "''":
-                j += 2
-                continue
-            break
+        j = p21parse._scan_string(line, a) - 1
         line = line[:j] + line[j + 1:]
     lines[k] = line
     return "\n".join(lines), [inst["id"]], True
@@ -334,6 +372,17 @@ def case(ctx, x):
                 inst = pop["instances"][fault["target"][0]]
                 head = min(p["ent"].lower() for p in inst["parts"])
                 if inst["parts"][fault["target"][1]]["ent"].lower() != head and ctx.known("complex-nonhead-part-errors-dropped"):
+                    continue
+            if fault.get("complex") and fault["cls"] == "unterminated-string" and "complex-nonhead-part-errors-dropped" in ctx.open_sigs \
+                    and all(p.startswith("read of the faulted file ended") or p.startswith("p21read exit status 0") for p in probs):
+                # the string that lost its closing quote is the first one of the record: the error is raised while its part is read
+                inst = pop["instances"][fault["inst"]]
+                head = min(p["ent"].lower() for p in inst["parts"])
+                m = re.search(r"#%d\s*=\s*\(" % inst["id"], text)
+                seg = text[m.end():] if m else ""
+                q = seg.find("'")
+                kws = re.findall(r"([A-Za-z_][A-Za-z0-9_]*)\s*\(", seg[:q]) if q >= 0 else []
+                if kws and kws[-1].lower() != head and ctx.known("complex-nonhead-part-errors-dropped"):
                     continue
             if ctx.known(sig) or ctx.known(fault["cls"]):
                 continue
